@@ -409,7 +409,13 @@ class ImplStack:
         elif op in ("watch", "unwatch"):
             f, rest = parse_svc_simple(t[1:])
             l, _ = self._listener(rest)
-            (p.discovery.watch_service if op == "watch" else p.discovery.stop_watch_service)(f, l)
+            wrapper = getattr(p.discovery, "find_subscribe_eventgroup" if op == "watch" else "stop_find_subscribe_eventgroup", None)
+            if isinstance(l, SD.AutoSubscribeServiceListener) and wrapper is not None and l.eventgroup.as_service() == f:
+                # the convenience wrapper of exactly this registration (found uncovered by the mutation sweep: the call inside
+                # it deferred with call_soon)
+                wrapper(l.eventgroup)
+            else:
+                (p.discovery.watch_service if op == "watch" else p.discovery.stop_watch_service)(f, l)
         elif op == "watchAll":
             p.discovery.watch_all_services(self.ext(int(t[1])))
         elif op == "unwatchAll":
